@@ -8,7 +8,7 @@ PROPS = {}
 PROPS['C04'] = dict(
     props_file='Props/C04.v',
     kernels=MECH_KERNELS + ['powercurve_charge', 'veh_modify_energy', 'veh_tick_energy_expended', 'veh_tick_energy_gained', 'hours_to_seconds'],
-    step_runs={Q: [('generic', 120, 30)], T: [('generic', 1500, 40), ('contention', 500, 40)]},
+    step_runs={Q: [('generic', 120, 30)], T: [('generic', 1500, 40), ('contention', 800, 60)]},
     known_keys={'energy_not_accounted': ['mechatronics'], 'idled_without_expending': ['mechatronics'], 'moved_without_expending': ['mechatronics'],
                 'charged_more_than_plug_delivers': ['charger']},
     trusted_base=['oracle hypotheses train_ok / curve_ok (positive sorted consumption table, non-negative sorted charge curve, positive curve step): re-established for the mechatronics of each generated world by the harness'],
@@ -30,12 +30,12 @@ PROPS['C02'] = dict(
     props_file='Props/C02.v',
     kernels=['cs_has_available_charger', 'cs_increment_available', 'cs_decrement_available', 'cs_increment_enqueued', 'cs_decrement_enqueued', 'cs_add_chargers',
              'base_has_available_stall', 'base_checkout_stall', 'base_return_stall'],
-    step_runs={Q: GEN + [('contention', 80, 40), ('plugs', 80, 40), ('queue', 60, 40)], T: [('generic', 1500, 40), ('contention', 1500, 60), ('plugs', 1500, 60), ('queue', 1500, 80)]},
+    step_runs={Q: GEN + [('contention', 80, 40), ('plugs', 80, 40), ('queue', 60, 40)], T: [('generic', 1500, 40), ('contention', 800, 60), ('plugs', 800, 60), ('queue', 1000, 80)]},
     known_keys={},
 )
 PROPS['C03'] = dict(
     props_file='Props/C03.v', kernels=['veh_receive_payment'],
-    step_runs={Q: GEN + [('requests', 80, 40)], T: [('generic', 1500, 40), ('requests', 1500, 60)]},
+    step_runs={Q: GEN + [('requests', 80, 40)], T: [('generic', 1500, 40), ('requests', 800, 60)]},
     known_keys={},
     assumptions=['no pooling (DESIGN §0)', 'request ids unique in the admitted stream'],
 )
@@ -43,23 +43,23 @@ PROPS['C05'] = dict(
     props_file='Props/C05.v',
     kernels=['veh_send_payment', 'veh_receive_payment', 'station_receive_payment', 'bev_add_energy', 'ice_add_energy', 'powercurve_charge',
              'veh_tick_energy_gained', 'veh_modify_energy'],
-    step_runs={Q: GEN + [('contention', 80, 40)], T: [('generic', 1500, 40), ('contention', 1500, 60)]},
+    step_runs={Q: GEN + [('contention', 80, 40)], T: [('generic', 1500, 40), ('contention', 800, 60)]},
     known_keys={},
 )
 PROPS['C07'] = dict(
     props_file='Props/C07.v', kernels=[],
-    step_runs={Q: GEN + [('contention', 80, 40), ('routes', 80, 30), ('rawmix', 60, 30)], T: [('generic', 1500, 40), ('contention', 800, 60), ('requests', 800, 60), ('routes', 1500, 40), ('rawmix', 800, 40)]},
+    step_runs={Q: GEN + [('contention', 80, 40), ('routes', 80, 30), ('rawmix', 60, 30)], T: [('generic', 1500, 40), ('contention', 800, 60), ('requests', 800, 60), ('routes', 1000, 40), ('rawmix', 300, 40)]},
     known_keys={'base_activity_away_from_base': ['activity'], 'station_activity_away_from_station': ['activity']},
 )
 PROPS['C09'] = dict(
     props_file='Props/C09.v', kernels=['transition_previous_to_next'],
-    step_runs={Q: GEN + [('contention', 80, 40)], T: [('generic', 1500, 40), ('contention', 800, 60), ('fleets', 800, 40)]},
+    step_runs={Q: GEN + [('contention', 80, 40)], T: [('generic', 1500, 40), ('contention', 800, 60), ('fleets', 800, 60)]},
     known_keys={'rejected_instruction_changed_state': ['changed_fields']},
 )
 PROPS['C10'] = dict(
     props_file='Props/C10.v',
     kernels=['membership_public', 'memberships_in_common', 'grant_access_to_membership', 'grant_access_to_membership_id', 'dispatcher_valid_vehicle', 'dispatcher_valid_request'],
-    step_runs={Q: GEN + [('fleets', 100, 40)], T: [('generic', 1500, 40), ('fleets', 1500, 60)]},
+    step_runs={Q: GEN + [('fleets', 100, 40)], T: [('generic', 1500, 40), ('fleets', 800, 60)]},
     known_keys={'interaction_without_access': ['activity', 'target_kind']},
 )
 PROPS['C15'] = dict(
@@ -69,12 +69,12 @@ PROPS['C15'] = dict(
 )
 PROPS['C17'] = dict(
     props_file='Props/C17.v', kernels=['req_assign_dispatched_vehicle', 'req_unassign_dispatched_vehicle', 'dispatcher_valid_request'],
-    step_runs={Q: GEN + [('requests', 80, 40)], T: [('generic', 1500, 40), ('requests', 1500, 60)]},
+    step_runs={Q: GEN + [('requests', 80, 40)], T: [('generic', 1500, 40), ('requests', 800, 60)]},
     known_keys={'stale_dispatched_vehicle': ['activity']},
 )
 PROPS['C18'] = dict(
     props_file='Props/C18.v', kernels=[],
-    step_runs={Q: GEN + [('queue', 100, 40), ('queue_mixed', 60, 40)], T: [('generic', 1500, 40), ('contention', 1500, 60), ('queue', 2000, 80), ('queue_mixed', 1000, 60)]},
+    step_runs={Q: GEN + [('queue', 100, 40), ('queue_mixed', 60, 40)], T: [('generic', 1500, 40), ('contention', 800, 60), ('queue', 1000, 80), ('queue_mixed', 600, 60)]},
     known_keys={'overtaken_in_queue_unusable_plug': ['can_use']},
 )
 PROPS['C20'] = dict(
@@ -84,14 +84,14 @@ PROPS['C20'] = dict(
 )
 PROPS['C19'] = dict(
     props_file='Props/C19.v', kernels=['veh_tick_distance', 'veh_tick_energy_gained', 'veh_send_payment', 'veh_receive_payment', 'station_receive_payment'],
-    step_runs={Q: GEN + [('fullsteps', 60, 48)], T: [('generic', 1500, 40), ('requests', 1500, 60), ('fullsteps', 800, 96)]},
+    step_runs={Q: GEN + [('fullsteps', 60, 48)], T: [('generic', 1500, 40), ('requests', 800, 60), ('fullsteps', 500, 96)]},
     known_keys={},
 )
 
 import eng_c11
 PROPS['C11'] = dict(
     props_file='Props/C11.v', kernels=['requests_stop_condition', 'prices_stop_condition'],
-    step_runs={Q: [('fullsteps', 60, 48)], T: [('fullsteps', 800, 96), ('generic', 800, 40)]},
+    step_runs={Q: [('fullsteps', 60, 48)], T: [('fullsteps', 500, 96), ('generic', 1500, 40)]},
     engines=[eng_c11.engine], extended=[eng_c11.engine], replayers=[eng_c11.replayer],
     known_keys={},
     rule='eng_c11: seeded (step length, start, timeout, sorted request file with bursts/gaps/identical stamps, price table by id or region) runs through the real update functions; non-trivial = has both request and price rows',
@@ -102,7 +102,7 @@ PROPS['C06'] = dict(
     props_file='Props/C06.v',
     kernels=['hours_to_seconds', 'link_travel_time_seconds', 'point_along_link', 'traverse_up_to', 'rt_no_time_left', 'rt_add_traversal',
              'rt_add_link_not_traversed', 'veh_tick_distance'],
-    step_runs={Q: GEN + [('requests', 80, 40), ('routes', 80, 30)], T: [('generic', 1500, 40), ('requests', 1500, 60), ('fullsteps', 500, 96), ('routes', 1500, 40)]},
+    step_runs={Q: GEN + [('requests', 80, 40), ('routes', 80, 30)], T: [('generic', 1500, 40), ('requests', 800, 60), ('fullsteps', 500, 96), ('routes', 1000, 40)]},
     known_keys={'stuck_after_arrival': ['activity', 'cause']},
     trusted_base=['oracle `mid` (h3 snapping inside point_along_link) and `gc` are arbitrary functions in the theorems; their answers are recorded from the real h3 calls in every correspondence case'],
 )
